@@ -19,9 +19,10 @@ import numpy as np
 from harness import common
 
 GEN_MODULES = ['grid']
-MODEL_TARGETS = ['model/M_Grid.vo', 'model/M_GridSF.vo']
+MODEL_TARGETS = ['model/M_Grid.vo', 'model/M_GridSF.vo', 'model/M_GridPdf.vo']
 PROOF_TARGETS = ['proofs/P_Grid.vo', 'proofs/P_GridInterp.vo', 'proofs/P_GridSF.vo', 'proofs/P_GridCall.vo',
-                 'proofs/P_GridLocal.vo', 'proofs/P_GridIrr.vo', 'proofs/P_GridExt.vo', 'proofs/P_GridCache.vo']
+                 'proofs/P_GridLocal.vo', 'proofs/P_GridIrr.vo', 'proofs/P_GridExt.vo', 'proofs/P_GridCache.vo',
+                 'proofs/P_GridHist.vo', 'proofs/P_GridPdf.vo', 'proofs/P_GridBelow.vo']
 LEVEL = 'proof'
 RULE = ('regular grids: origin in {0, few-decimal, full-precision random, large (58000, 1e5..)} x spacing '
         'in 1e-3..1e3 (decimal and dyadic) x 2..200 points x {from_range, explicit delta, delta=None} x '
@@ -48,6 +49,8 @@ TRUSTED = [
     'np.searchsorted on a sorted array = number of entries < v (left) / <= v (right)',
     'the manifold function is a per-entry function of (trial data state, grid value of that source, source, '
     'event) (the documented contract of `func`); values array laid out in source blocks (TrialDataManager)',
+    'PDFSet registry modelled as an insertion-ordered association list keyed by h v = hash(frozenset({name: v}.items())); '
+    'h is an input with the contract x == y -> h x = h y (Python); the dict itself is Python\'s',
     'decimals (Python string formatting in get_number_of_float_decimals) and np.arange / np.mean(np.diff) are '
     'inputs of the model, recomputed independently by the harness',
 ]
@@ -945,27 +948,102 @@ def run_grid_interleave(ctx, cases):
 
 
 # ------------------------------------------------------------------ PDFSet lookup by rounded grid values
-def run_pdfset_lookup(ctx, cases):
-    """make_dict_hash of the rounded value finds the entry registered for the grid member"""
+def _stub_pdfset(grid_obj):
+    """a REAL PDFSet filled with one stub PDF per grid point (tag = index of the grid point)"""
+    from skyllh.core.config import Config
+    from skyllh.core.pdf import PDF, PDFSet, PDFAxis
+
+    class StubPDF(PDF):
+        def __init__(self, tag, **kw):
+            super().__init__(pmm=None, **kw)
+            self.tag = tag
+            self.add_axis(PDFAxis(name='x', vmin=0., vmax=1.))
+
+        def assert_is_valid_for_trial_data(self, *a, **k):
+            pass
+
+        def get_pd(self, *a, **k):
+            return None
+
+    cfg = Config()
+    ps = PDFSet(cfg=cfg, param_grid_set=grid_obj)
+    for i, gp in enumerate(ps.gridparams_list):
+        ps.add_pdf(StubPDF(i, cfg=cfg), gp)
+    return ps
+
+
+def run_pdfset_lookup(ctx, exe, cases):
+    """PDFSet.get_pdf({name: rounded value}) on a real PDFSet holding one PDF per grid point: the PDF found
+    is the one registered for the grid member the rounded value is bit-identical to (model: index of the
+    model's rounded value in the model's stored grid); no KeyError on fine grids"""
     from skyllh.core.py import make_dict_hash
+    lines, metas = [], []
     for case in cases:
         g, arr, delta0, dec = build_regular(case)
         if isinstance(g, str) or len(g.grid) < 2:
+            continue
+        try:
+            ps = _stub_pdfset(g)
+        except KeyError:
+            # the registry cannot be built: either two DISTINCT grid values have the same Python hash
+            # (known finding: hash(-1.0) == hash(-2.0)), or two stored grid points are equal
+            vals_ = [float(x) for x in g.grid]
+            if len(set(vals_)) == len(vals_) and len({hash(x) for x in vals_}) < len(vals_):
+                ctx.count('pdfset:hash-collision')
+                ctx.violation('PDFSet.add_pdf', 'hash-collision-of-distinct-grid-values',
+                              'distinct grid values with equal hash: PDFSet.add_pdf raises KeyError',
+                              case=case, impl=sorted(x for x in vals_ if [hash(y) for y in vals_].count(hash(x)) > 1))
+                continue
+            ctx.count('pdfset:duplicate-grid-value')
+            maxabs = max(abs(float(g.grid[0])), abs(float(g.grid[-1])))
+            coarse = ulp(maxabs) / float(g.delta) >= COARSE
+            ctx.violation(SITE_PG, KIND_COARSE if coarse else 'fine-grid:duplicate-grid-point',
+                          'two stored grid points are equal: PDFSet.add_pdf raises KeyError', case=case)
             continue
         table = {make_dict_hash({'p': float(x)}): i for i, x in enumerate(g.grid)}
         rng = __import__('random').Random(case['seed'] + 1)
         lo, hi = float(g.grid[0]), float(g.grid[-1])
         maxabs = max(abs(lo), abs(hi))
         coarse = ulp(maxabs) / float(g.delta) >= COARSE
-        for _ in range(20):
-            v = rng.uniform(lo, hi)
+        vals = [('random', rng.uniform(lo, hi)) for _ in range(12)] + [('gridpoint', float(x)) for x in g.grid[:6]]
+        members = {bits(x): i for i, x in enumerate(g.grid)}
+        impl = []
+        for tag, v in vals:
+            row = []
             for f in (g.round_to_nearest_grid_point, g.round_to_lower_grid_point):
-                key = make_dict_hash({'p': f(v)})
+                r = f(v)
                 ctx.count('pdfset_lookup')
-                if key not in table:
+                try:
+                    t = ps.get_pdf({'p': r}).tag
+                except KeyError:
+                    t = 'KeyError'
+                row.append(t)
+                if t == 'KeyError' or make_dict_hash({'p': r}) not in table:
                     ctx.violation(SITE_PG, KIND_COARSE if coarse else 'fine-grid:lookup-key-missing',
-                                  'hash of the rounded value is not the key of any grid member',
-                                  case=dict(case, value=hx(v)))
+                                  'PDFSet has no PDF for the rounded value', case=dict(case, value=hx(v)))
+                elif members.get(bits(r)) != t:
+                    ctx.violation('PDFSet.get_pdf', 'wrong-pdf-for-rounded-value',
+                                  'the PDF found is not the one registered for the grid member the value was rounded to',
+                                  case=dict(case, value=hx(v)), impl=t, model=members.get(bits(r)))
+            impl.append(tuple(row))
+        lines.append(grid_line(case, arr, delta0, dec, vals))
+        metas.append((case, impl, len(vals)))
+    if exe is None or not lines:
+        return
+    outs = common.ocaml_run(exe, lines)
+    for (case, impl, nv), out in zip(metas, outs):
+        ctx.corr_cases += 1
+        t = out.split()
+        if t[0] != 'Ok':
+            model = ['Err']
+        else:
+            n = int(t[3])
+            gridm = {bits(unhex(x)): i for i, x in enumerate(t[4:4 + n])}
+            rest = t[5 + n:]
+            # per value: floatD intD nearest lower upper ; ps_get = index of the rounded value among the stored points
+            model = [tuple(gridm.get(bits(unhex(rest[5 * i + k])), 'KeyError') for k in (2, 3)) for i in range(nv)]
+        if model != impl:
+            ctx.disagree('PDFSet.get_pdf/rounded-value', case, str(impl)[:300], str(model)[:300])
 
 
 # ------------------------------------------------------------------ corpus
@@ -1008,7 +1086,7 @@ def run(ctx):
     run_multi(ctx, exe, multi)
     ctx.sample({'multi': {'objs': [(o['kind'], o['fam'], o['c']) for o in multi[0]['objs']], 'steps': multi[0]['steps'][:4]}})
     run_grid_interleave(ctx, reg[8:8 + ctx.budget(40, 300)])
-    run_pdfset_lookup(ctx, reg[:ctx.budget(40, 300)])
+    run_pdfset_lookup(ctx, exe, reg[:ctx.budget(40, 300)])
     if ctx.model_ok:
         small = [c for c in reg if c['n'] <= 11][:ctx.budget(12, 60)]
         try:
@@ -1050,7 +1128,7 @@ def replay(ctx, rp):
         case['okind'] = 'replay'
         case['seed'] = case['seed'] or 1
         run_regular(ctx, exe, [case])
-        run_pdfset_lookup(ctx, [case])
+        run_pdfset_lookup(ctx, exe, [case])
         return
     ctx.notes.append('replay file has no concrete input (broken obligation): re-running the full check')
     return run(ctx)
